@@ -10,7 +10,7 @@ namespace Ini
 
 variable {α : Type}
 
-theorem insertBy_perm (key : α → Str) (x : α) (l : List α) : (insertBy key x l).Perm (x :: l) := by
+theorem c8_insertBy_perm (key : α → Str) (x : α) (l : List α) : (insertBy key x l).Perm (x :: l) := by
   induction l with
   | nil => exact List.Perm.refl _
   | cons y ys ih =>
@@ -19,16 +19,16 @@ theorem insertBy_perm (key : α → Str) (x : α) (l : List α) : (insertBy key 
     · exact (List.Perm.cons y ih).trans (List.Perm.swap x y ys)
     · exact List.Perm.refl _
 
-theorem sortBy_perm (key : α → Str) (l : List α) : (sortBy key l).Perm l := by
+theorem c8_sortBy_perm (key : α → Str) (l : List α) : (sortBy key l).Perm l := by
   induction l with
   | nil => exact List.Perm.refl _
   | cons x xs ih =>
     simp only [sortBy, List.foldr_cons]
-    exact (insertBy_perm key x _).trans (List.Perm.cons x ih)
+    exact (c8_insertBy_perm key x _).trans (List.Perm.cons x ih)
 
 def KSorted (key : α → Str) (l : List α) : Prop := l.Pairwise (fun a b => key a ≤ key b)
 
-theorem insertBy_sorted (key : α → Str) (x : α) (l : List α) (h : KSorted key l) : KSorted key (insertBy key x l) := by
+theorem c8_insertBy_sorted (key : α → Str) (x : α) (l : List α) (h : KSorted key l) : KSorted key (insertBy key x l) := by
   induction l with
   | nil => simp [insertBy, KSorted]
   | cons y ys ih =>
@@ -40,7 +40,7 @@ theorem insertBy_sorted (key : α → Str) (x : α) (l : List α) (h : KSorted k
       simp only [if_true]
       refine List.pairwise_cons.mpr ⟨?_, ih hy.2⟩
       intro z hz
-      rcases List.mem_cons.mp ((insertBy_perm key x ys).mem_iff.mp hz) with rfl | hz
+      rcases List.mem_cons.mp ((c8_insertBy_perm key x ys).mem_iff.mp hz) with rfl | hz
       · exact lt_le hlt
       · exact hy.1 z hz
     | false =>
@@ -51,29 +51,29 @@ theorem insertBy_sorted (key : α → Str) (x : α) (l : List α) (h : KSorted k
       · exact not_lt_le hlt
       · exact List.le_trans (not_lt_le hlt) (hy.1 z hz)
 
-theorem sortBy_sorted (key : α → Str) (l : List α) : KSorted key (sortBy key l) := by
+theorem c8_sortBy_sorted (key : α → Str) (l : List α) : KSorted key (sortBy key l) := by
   induction l with
   | nil => exact List.Pairwise.nil
   | cons x xs ih =>
     simp only [sortBy, List.foldr_cons]
-    exact insertBy_sorted key x _ ih
+    exact c8_insertBy_sorted key x _ ih
 
 /-- sorting two lists that are the same up to rearrangement and a key-preserving relation gives lists related element by
 element, in the same order (distinct keys) -/
 theorem sortBy_all2 {R : α → α → Prop} (key : α → Str) (hk : ∀ a b, R a b → key a = key b) {l l' : List α}
     (h : PermR R l l') (hn : (l.map key).Nodup) : All2 R (sortBy key l) (sortBy key l') := by
-  have p1 := sortBy_perm key l
-  have p2 := sortBy_perm key l'
+  have p1 := c8_sortBy_perm key l
+  have p2 := c8_sortBy_perm key l'
   have hR : PermR R (sortBy key l) (sortBy key l') := by
     obtain ⟨m, hm, ha⟩ := h
     obtain ⟨m', hm', ha'⟩ := PermR.all2_perm_swap ha p2.symm
     exact ⟨m', (p1.trans hm).trans hm', ha'⟩
-  exact PermR.sorted_all2 key hk (sortBy_sorted key l) (sortBy_sorted key l') ((p1.map key).nodup_iff.mpr hn) hR
+  exact PermR.sorted_all2 key hk (c8_sortBy_sorted key l) (c8_sortBy_sorted key l') ((p1.map key).nodup_iff.mpr hn) hR
 
 /-- `sorted(list_of_str)` is a function of the multiset -/
-theorem sortS_perm_eq {l l' : List Str} (h : l.Perm l') : sortS l = sortS l' := by
-  apply List.Perm.eq_of_pairwise (le := fun a b : Str => a ≤ b) _ (sortBy_sorted id l) (sortBy_sorted id l')
-    (((sortBy_perm id l).trans h).trans (sortBy_perm id l').symm)
+theorem c8_sortS_perm_eq {l l' : List Str} (h : l.Perm l') : sortS l = sortS l' := by
+  apply List.Perm.eq_of_pairwise (le := fun a b : Str => a ≤ b) _ (c8_sortBy_sorted id l) (c8_sortBy_sorted id l')
+    (((c8_sortBy_perm id l).trans h).trans (c8_sortBy_perm id l').symm)
   intro a b _ _ hab hba
   exact List.le_antisymm hab hba
 
@@ -163,7 +163,7 @@ theorem render_eq {d d' : Ini} (h : IniEq d d') (hk : DistinctKeys d) (hd : NoDe
   have hall := sortBy_all2 (R := SecEq) (·.1) (fun a b r => r.1) hf hn
   refine all2_flatMap_eq (P := fun s => (s.2.map (·.1)).Nodup) renderSec (fun a b r hp => renderSec_eq r hp) hall ?_
   intro s hs
-  have : s ∈ d.filter (·.1 != DEFAULT) := (sortBy_perm (·.1) _).mem_iff.mp hs
+  have : s ∈ d.filter (·.1 != DEFAULT) := (c8_sortBy_perm (·.1) _).mem_iff.mp hs
   exact hk.opts s (List.mem_filter.mp this).1
 
 end IniText
